@@ -332,9 +332,6 @@ theorem find_filterMap_pos (common : List α) (hnd : common.Nodup) (i : Nat) (hi
         rw [this]
         exact ih
 
-/-- the denotation of a diagram only looks at its inputs -/
-theorem den_congr (b : Bdd α) (ρ σ : α → Bool) (h : ∀ x ∈ b.inputs, ρ x = σ x) : b.den ρ = b.den σ := by
-  simp only [den]; congr 1; exact List.map_congr_left h
 
 section
 variable [Ord α] [Std.TransOrd α] [Std.LawfulEqOrd α]
